@@ -95,6 +95,28 @@ def run_case(kind, m, eu, ev, bname, ub, vb, iname, rng):
         lhs = float(v @ (A @ u))
         if abs(lhs - J) > 1e-10 * max(1.0, abs(J)):
             fails.append("v^T A u = %.12g but a(u_h, v_h) = %.12g" % (lhs, J))
+    if extra == "dofvector":
+        # a coefficient vector enters by its CURRENT values: after an in-place update of the same array object (the usual pattern inside a nonlinear or
+        # time-stepping loop) the assembled matrix / vector are those of the updated vector
+        k = kw_u["c"]
+        k *= -0.5
+        k += 0.25
+        A2 = fem.BilinearForm(bil).assemble(ub, vb, c=k)
+        A3 = fem.BilinearForm(bil).assemble(ub, vb, c=k.copy())
+        if abs(A2 - A3).max() > 0:
+            fails.append("STALE-COEFFICIENT: after updating the coefficient vector in place the matrix differs from the one assembled with a fresh copy of it by %.3e" % abs(A2 - A3).max())
+        b2, b3 = fem.LinearForm(lin).assemble(ub, c=k), fem.LinearForm(lin).assemble(ub, c=k.copy())
+        if np.abs(b2 - b3).max() > 0:
+            fails.append("STALE-COEFFICIENT: linear form after an in-place update of the coefficient vector differs from a fresh copy by %.3e" % np.abs(b2 - b3).max())
+    if iname == "scalar-param" and J is not None and A.shape == (vb.N, ub.N):
+        # the represented form is linear in a scalar parameter at EVERY magnitude (metre vs. micrometre units, tiny material constants): the matrix with
+        # c = 1e-18 is 1e-18/1.7 times the matrix with c = 1.7, entry by entry up to rounding -- no absolute threshold may enter the assembled numbers
+        for cs in (1e-18, 1e-30, 1e+20):
+            As = fem.BilinearForm(bil).assemble(ub, vb, c=cs)
+            ref = A * (cs / 1.7)
+            dmax = abs(As - ref).max() if As.nnz or ref.nnz else 0.0
+            if dmax > 1e-12 * abs(ref).max():
+                fails.append("SCALE: with the scalar parameter c = %.0e the assembled matrix is not c/1.7 times the matrix for c = 1.7 (max entry difference %.3e, max entry %.3e)" % (cs, dmax, abs(ref).max()))
     # linear form / functional consistency on the test basis
     kw_v = {}
     if extra == "dofvector":
